@@ -2,6 +2,7 @@
 From Coq Require Import List ZArith Bool.
 Import ListNotations.
 From TI Require Import lib.Term lib.TermFacts lib.Rect model.Block proofs.BlockProofs proofs.BlockRect.
+From TI Require model.RenderData proofs.RenderDataProofs.
 Open Scope Z_scope.
 
 (** After executing a block render of [rows] (pixel pairs at render resolution, as
@@ -53,3 +54,37 @@ Theorem C02_workaround_bounded :
                /\ (r' <> r -> bgcol = Some (p2 p)).
 Proof. exact expect_workaround_bounded. Qed.
 Print Assumptions C02_workaround_bounded.
+
+(** *** from SOURCE pixels to the screen (at render resolution, where no resampling is
+    involved).  [RenderData.render_pair] is the transparency logic of [_get_render_data]
+    (tied to the code by the correspondence), [src_expect] the property's demand on a source
+    pixel: alpha ignored when transparency is disabled; composited over the requested
+    background colour; for thresholded transparency the terminal's own background below the
+    threshold and, above it, opaque and composited over the terminal background (black if
+    unknown).  [comp] is Pillow's per-channel composite (any function). *)
+Theorem C02_source_pair_exact :
+  forall (comp : Z -> Z -> Z -> Z) has_alpha s termbg bgcol u l,
+    Block.expect (TI.model.RenderData.alpha_mode has_alpha s) false bgcol
+                 (TI.model.RenderData.render_pair comp has_alpha s termbg u l)
+    = (TI.proofs.RenderDataProofs.col_of (TI.model.RenderData.src_expect comp has_alpha s termbg u),
+       TI.proofs.RenderDataProofs.col_of (TI.model.RenderData.src_expect comp has_alpha s termbg l)).
+Proof. exact TI.proofs.RenderDataProofs.source_pair_exact. Qed.
+Print Assumptions C02_source_pair_exact.
+
+(** with the exact composite (the function the correspondence runs against Pillow), an
+    opaque source pixel is shown with its own RGB value under every alpha setting *)
+Theorem C02_opaque_pixel_unchanged :
+  forall has_alpha s termbg c,
+    (match s with TI.model.RenderData.AThreshold thr => thr <= 255 | _ => True end) ->
+    TI.model.RenderData.src_expect TI.model.RenderData.comp_exact has_alpha s termbg
+      {| TI.model.RenderData.s_rgb := c; TI.model.RenderData.s_a := 255 |} = TI.model.RenderData.SColour c.
+Proof. exact TI.proofs.RenderDataProofs.opaque_pixel_unchanged. Qed.
+Print Assumptions C02_opaque_pixel_unchanged.
+
+(** the exact composite is the nearest integer to the rational blend and stays in range *)
+Theorem C02_composite_nearest :
+  forall s a d, 0 <= a <= 255 ->
+    let e := TI.model.RenderData.comp_exact s a d in
+    2 * Z.abs (255 * e - (s * a + d * (255 - a))) < 255 + 1.
+Proof. exact TI.proofs.RenderDataProofs.comp_exact_nearest. Qed.
+Print Assumptions C02_composite_nearest.
